@@ -136,6 +136,13 @@ pub fn run_lin(args: &Args, report: &mut Report) {
         for _ in 0..batch {
             h += 1;
             let hid = h * args.num("shards", 1).max(1) + shard;
+            if explicit && h % 10 == 5 {
+                if let Some((sig, msg, replay)) = scripted_overtaken(&store, report, args.seed, hid, base_ts + hid * 10_000 + 2_000, &label) {
+                    report.violation(sig, msg, replay);
+                    break 'outer;
+                }
+                hub().set_sched(Some(ctl.clone()));
+            }
             if explicit && h % 10 == 0 {
                 if let Some((sig, msg, replay)) = scripted_aba(&store, report, args.seed, hid, base_ts + hid * 10_000 + 5_000, &label) {
                     report.violation(sig, msg, replay);
@@ -426,6 +433,103 @@ fn one_history(store: &Arc<FeoxStore>, cfg: &Cfg, seed: u64, hid: u64, explicit:
         let _ = store.delete_with_timestamp(k, if explicit { Some(base_ts + 9_999) } else { None });
     }
     violation
+}
+
+/// Scripted "overtaken writer" histories: a call carrying an explicit timestamp Tw (upsert through the slice or
+/// the Bytes entry point, increment, compare-and-swap, JSON patch) is held for 500 us after it has read the key's
+/// generation; meanwhile another thread performs a seeded sequence of 1-3 modifications of that key - replacements
+/// by CAS / patch / increment / upsert with timestamps below or above Tw, a delete at, above or below Tw, a
+/// re-creation - and then the first call resumes. The history goes through the same per-key checker: whatever the
+/// held call answers must be explainable (e.g. it may not be accepted on top of a delete that carries Tw or more).
+fn scripted_overtaken(store: &Arc<FeoxStore>, report: &mut Report, seed: u64, hid: u64, base_ts: u64, label: &str) -> Option<(String, String, serde_json::Value)> {
+    let mut rng = Rng::derive(seed, hid, 0x0e7a);
+    let kind = rng.below(3);
+    let key = format!("ovt{hid}").into_bytes();
+    let t0 = base_ts + 10;
+    let tw = t0 + 500;
+    let mut seq = 10u32;
+    let mut mk = |rng: &mut Rng, seq: &mut u32| -> Vec<u8> {
+        *seq += 1;
+        match kind {
+            0 => (rng.range(0, 1000) as i64).to_le_bytes().to_vec(),
+            1 => values::make(Tag { key_id: 7, writer: 0, seq: *seq }, rng.range(22, 120) as usize),
+            _ => format!("{{\"l\":[],\"n\":{}}}", *seq).into_bytes(),
+        }
+    };
+    let v0 = mk(&mut rng, &mut seq);
+    if store.insert_with_timestamp(&key, &v0, Some(t0)).is_err() {
+        return None;
+    }
+    // the held call
+    let (first, point) = match (kind, rng.below(3)) {
+        (0, 0) | (0, 1) => (OpKind::Incr(rng.range(1, 9) as i64, Some(tw)), "incr.before_swap"),
+        (1, 0) => (OpKind::Cas(v0.clone(), mk(&mut rng, &mut seq), Some(tw)), "cas.before_swap"),
+        (2, 0) | (2, 1) => (OpKind::PatchAppend(77, Some(tw)), "patch.before_swap"),
+        _ => (OpKind::Insert(mk(&mut rng, &mut seq), Some(tw)), "insert.after_read"),
+    };
+    hub().set_sched(Some(Arc::new(SchedCtl::new(seed ^ hid, 0, 0).target(point, 1000, 500))));
+    let a = {
+        let (store, key, first) = (store.clone(), key.clone(), first.clone());
+        std::thread::spawn(move || {
+            let inv = tick();
+            let res = apply(&store, &key, &first);
+            Event { thread: 0, op: first, res, inv, ret: tick() }
+        })
+    };
+    std::thread::sleep(std::time::Duration::from_micros(150));
+    // the overtaking sequence (this thread never arrives at a targeted point it would be held at for long: the
+    // controller only delays, and 500 us per step is fine)
+    let mut evs = Vec::new();
+    let mut cur: Option<Vec<u8>> = Some(v0.clone());
+    let mut low = t0; // timestamps handed out below Tw, increasing
+    let steps = 1 + rng.usize_below(3);
+    for step in 0..steps {
+        low += 20;
+        let below = Some(low);
+        let at_or_above = Some(tw + [0u64, 0, 40, 300][rng.usize_below(4)] + step as u64);
+        let op = match (rng.below(6), &cur) {
+            (0, Some(c)) if kind == 1 => OpKind::Cas(c.clone(), mk(&mut rng, &mut seq), below),
+            (0, Some(_)) if kind == 0 => OpKind::Incr(rng.range(1, 9) as i64, below),
+            (0, Some(_)) => OpKind::PatchAppend(step as u64 + 1, below),
+            (1, Some(_)) => OpKind::Delete(at_or_above),
+            (2, Some(_)) => OpKind::Delete(below),
+            (3, _) => OpKind::Insert(mk(&mut rng, &mut seq), below),
+            (4, _) => OpKind::Insert(mk(&mut rng, &mut seq), at_or_above),
+            (_, None) => OpKind::Insert(mk(&mut rng, &mut seq), below),
+            (_, Some(c)) if kind == 1 => OpKind::Cas(c.clone(), mk(&mut rng, &mut seq), at_or_above),
+            (_, Some(_)) => OpKind::Delete(at_or_above),
+        };
+        let inv = tick();
+        let res = apply(store, &key, &op);
+        // follow the value for the next CAS
+        match (&op, &res) {
+            (OpKind::Insert(v, _), Res::Bool(_)) => cur = Some(v.clone()),
+            (OpKind::Cas(_, n, _), Res::Bool(true)) => cur = Some(n.clone()),
+            (OpKind::Delete(_), Res::Unit) => cur = None,
+            (OpKind::Incr(..), Res::Int(n)) => cur = Some(n.to_le_bytes().to_vec()),
+            (OpKind::PatchAppend(..), Res::Unit) => cur = store.get(&key).ok(),
+            _ => {}
+        }
+        evs.push(Event { thread: 1, op, res, inv, ret: tick() });
+    }
+    let ea = a.join().ok()?;
+    hub().set_sched(None);
+    let held = lin::brief_op(&ea.op);
+    evs.push(ea);
+    let inv = tick();
+    let res = apply(store, &key, &OpKind::Get);
+    evs.push(Event { thread: 99, op: OpKind::Get, res, inv, ret: tick() });
+    report.count("scripted_overtaken_writer_histories", 1);
+    let out = match lin::check_key(&evs, St { v: Some((v0.clone(), Some(t0))) }, 2_000_000) {
+        Verdict::Violation(msg) => Some((
+            format!("lin:scripted-overtaken:{}", ["Ctr", "Reg", "Doc"][kind as usize]),
+            format!("[{label}] key {}: {held} was held after reading the key while {steps} other modification(s) completed: {msg}", hex(&key)),
+            json!({"engine": "conc", "mode": "lin", "seed": seed, "history": hid, "label": label, "scripted": "overtaken"}),
+        )),
+        _ => None,
+    };
+    let _ = store.delete_with_timestamp(&key, Some(base_ts + 9_999));
+    out
 }
 
 /// Scripted three-operation histories: a read-modify-write call (increment / compare-and-swap / JSON patch) is
